@@ -566,7 +566,7 @@ class NonLinearPADMM(ProximalADMMBase):
             B = lambda u: jvp(Hz, (self.z,), (u,))[1]
             Hx = lambda x: self.H(x, self.z)
             AH = cvjp(Hx, self.x)[1]
-            rsdl = AH(B(self.z - self.z_old))
+            rsdl = AH(B(self.z - self.z_old))[0]
         return norm(rsdl)
 
     def step(self):
